@@ -470,3 +470,50 @@ def g8_derived_state(ctx: Ctx, classes, rule="G8"):
                        setter.where, st)
                 ctx.touch(init, setter)
     return n
+
+
+# --------------------------------------------------------------------------- light types
+def attr_types(prog: Program, c: ClassInfo) -> dict:
+    """`self.A = ClassName(...)` in a constructor of the MRO: attribute A is certainly a ClassName."""
+    out = {}
+    for k in reversed(c.mro):
+        init = k.methods.get("__init__")
+        if not init:
+            continue
+        for n in walk_own(init.node):
+            if isinstance(n, ast.Assign) and len(n.targets) == 1 and is_self_attr(n.targets[0]) and isinstance(n.value, ast.Call):
+                r = prog.resolve_expr(k.module.name, n.value.func)
+                if r and r[0] == "class":
+                    out[n.targets[0].attr] = r[1]
+    return out
+
+
+NON_CALLABLE_ANN = ("Iterator", "Iterable", "Generator", "tuple", "list", "dict", "int", "float", "bool", "str", "torch.Tensor", "Tensor")
+
+
+def g5_typed_property_call(ctx: Ctx, scope, rule="G5"):
+    """`self.A.p()` where A is certainly typed (constructor) and p is a property of that type whose annotation
+    is not callable."""
+    n = 0
+    for f in scope:
+        if f.cls is None:
+            continue
+        types = attr_types(ctx.prog, f.cls)
+        for node in walk_own(f.node):
+            if isinstance(node, ast.Call) and isinstance(node.func, ast.Attribute) and is_self_attr(node.func.value) \
+                    and node.func.value.attr in types:
+                t = types[node.func.value.attr]
+                name = node.func.attr
+                owner = t.prop_owner(name)
+                n += 1
+                if owner is None:
+                    has = t.find_method(name) is not None or any(b for b in t.ext_bases)
+                    ctx.ob(rule, f"{f.short}: self.{node.func.value.attr}.{name}()", True, f"{name} is a method of {t.name}", ctx.prog.loc(f, node), node)
+                    continue
+                g = owner.props[name].get("get")
+                ann = ast.unparse(g.node.returns) if g is not None and g.node.returns is not None else ""
+                bad = any(ann == k or ann.startswith(k + "[") for k in NON_CALLABLE_ANN)
+                ctx.ob(rule, f"{f.short}: self.{node.func.value.attr}.{name}()", not bad,
+                       "" if not bad else f"'{name}' is a property of {t.name} returning {ann}; calling its value raises TypeError",
+                       ctx.prog.loc(f, node), node)
+    return n
